@@ -2,7 +2,8 @@
 PAIR, PAIR-SHIFT, SWAP-TABLE.'''
 import ast
 
-from ..astutil import txt, call_name, receiver, walk_local, dotted
+from ..astutil import (txt, call_name, receiver, walk_local, dotted, calls_in,
+                       enclosing_chain, lexically_inside)
 from ..loader import AnalysisError
 from .. import effects
 
@@ -437,3 +438,72 @@ def check_index_prune(ctx):
                               'node cannot be added again'
                        if not pruned else None)
     ctx.floor('INDEX-PRUNE', n, 1, 'removals from a list of the reverse map')
+
+
+# ------------------------------------------------------ FLATTEN-FIXPOINT ---
+
+def check_flatten_fixpoint(ctx):
+    """flatten(recurse=True) ends with no graph-node left: grafting a graph
+    re-inserts ALL its nodes (merge), including a nested graph that was
+    grafted - and removed - earlier when it is shared between two places.
+    (a) the shipped spelling re-scans self._nodes after every round, which
+    establishes the post-condition by its exit test; (b) a work-list spelling
+    is not decided here; (c) a work-list with a VISITED set (skip the graph
+    that "was already grafted") is recognised-wrong: the skipped graph is
+    exactly the one a later graft brought back."""
+    program = ctx.program
+    klass = program.cls('valjean.cosette.depgraph:DepGraph')
+    meth = klass.methods.get('flatten')
+    if meth is None:
+        raise AnalysisError('DepGraph.flatten not found')
+    program.consulted.add(meth.module.relpath)
+    grafts = [c for c in calls_in(meth.node) if call_name(c) == 'graft']
+    ctx.floor('FLATTEN-FIXPOINT', len(grafts), 1, 'graft() call in flatten')
+    parents = enclosing_chain(meth.node)
+    # local collections that receive the grafted node (or its id)
+    filled = {}
+    for call in calls_in(meth.node):
+        if call_name(call) in ('add', 'append') and isinstance(
+                receiver(call), ast.Name) and call.args:
+            filled.setdefault(receiver(call).id, []).append(call.args[0])
+    for graft in grafts:
+        arg = txt(graft.args[0]) if graft.args else None
+        visited = {name for name, vals in filled.items()
+                   if any(txt(v) in (arg, f'id({arg})') for v in vals)}
+        skip = None
+        for node in walk_local(meth.node):
+            if isinstance(node, ast.If) and any(
+                    isinstance(c, ast.Compare) and isinstance(
+                        c.ops[0], (ast.In, ast.NotIn)) and
+                    txt(c.comparators[0]) in visited
+                    for c in ast.walk(node.test)):
+                skip = node
+        loops = [n for n in walk_local(meth.node)
+                 if isinstance(n, ast.While)]
+        rescans = [n for n in walk_local(meth.node)
+                   if isinstance(n, ast.Assign) and isinstance(
+                       n.value, (ast.ListComp, ast.GeneratorExp)) and
+                   '_nodes' in txt(n.value.generators[0].iter) and
+                   'isinstance' in txt(n.value)]
+        if skip is not None:
+            ctx.violated(
+                'FLATTEN-FIXPOINT', meth,
+                f'flatten: graft skipped under `{txt(skip.test)[:50]}`',
+                at=meth.where(skip),
+                detail='a graph that was grafted before and is brought back '
+                       'by the graft of a graph that also contains it (a '
+                       'nested graph shared between two places) is skipped: '
+                       'it stays in the flattened graph and the ordering '
+                       'constraints through it are lost')
+        elif loops and any(
+                isinstance(lp.test, ast.Name) and any(
+                    txt(rs.targets[0]) == lp.test.id and
+                    lexically_inside(parents, rs, lambda n, lp=lp: n is lp)
+                    for rs in rescans) for lp in loops):
+            ctx.holds('FLATTEN-FIXPOINT', meth,
+                      'flatten: the loop ends when a re-scan of self._nodes '
+                      'finds no graph-node', at=meth.where(loops[0]))
+        else:
+            ctx.undecided('FLATTEN-FIXPOINT', meth,
+                          'flatten: termination test not recognised',
+                          at=meth.where(graft))
